@@ -365,3 +365,129 @@ def _crc32(ip, data):
     ip.ctx.assume(z3.And(r >= 0, r <= 2 ** 32 - 1))
     ops.declare_bounds(r, 0, 2 ** 32 - 1)
     return Sym(r, 'int')
+
+
+# ------------------------------------------------------------------------------------------ elliptic-curve keys (idealised)
+# A key pair is identified by an integer `kid`.  der(kid) is the injective DER encoding of the public key;
+# sign/verify: verify(pub(kid), sig, data) returns normally only if data was signed under kid (ideal signature);
+# dh(a, b) is symmetric; kdf is a deterministic function (HKDF-SHA256, length 16) of (shared secret, salt).
+
+DER = z3.Function('pub_der', IntSort, BytesSort)
+KID_OF = z3.Function('kid_of_der', BytesSort, IntSort)
+SIGNED = z3.Function('signed', IntSort, BytesSort, BoolSort)
+SIG = z3.Function('sig', IntSort, BytesSort, IntSort, BytesSort)       # kid, data, nonce -> signature
+SIG_OK = z3.Function('sig_verifies', IntSort, BytesSort, BytesSort, BoolSort)   # kid, signature, data
+DH = z3.Function('dh', IntSort, IntSort, IntSort)
+KDF = z3.Function('hkdf16', IntSort, BytesSort, BytesSort)
+
+KEY_NOTE = ('EC keys idealised: key pair = integer id; der() injective with len 91; verify succeeds only for data signed '
+            'under that id (ideal ECDSA); dh symmetric; hkdf deterministic with 16-byte output')
+
+
+def _priv_cls(ip):
+    return ip.repo.cls('crypto.EllipticCurvePrivateKey')
+
+
+def _pub_cls(ip):
+    return ip.repo.cls('crypto.EllipticCurvePublicKey')
+
+
+def mk_priv(ip, kid):
+    return Obj(_priv_cls(ip), {'kid': kid, 'key': Opaque('cryptography.private_key', {'unsupported': True})})
+
+
+def mk_pub(ip, kid):
+    return Obj(_pub_cls(ip), {'kid': kid, 'key': Opaque('cryptography.public_key', {'unsupported': True})})
+
+
+@repo_function_model('crypto.EllipticCurvePrivateKey.new')
+def _priv_new(ip):
+    used(ip, KEY_NOTE)
+    kid = ip.ctx.fresh('kid', IntSort)
+    fresh = ip.state.ghost.setdefault('fresh_kids', [])
+    for k in fresh:
+        ip.ctx.assume(kid != k)
+    fresh.append(kid)
+    return mk_priv(ip, Sym(kid, 'int'))
+
+
+@repo_function_model('crypto.EllipticCurvePrivateKey.getPublicKey')
+def _priv_getpub(ip, self):
+    used(ip, KEY_NOTE)
+    return mk_pub(ip, self.attrs['kid'])
+
+
+@repo_function_model('crypto.EllipticCurvePublicKey.getBytes')
+def _pub_getbytes(ip, self):
+    used(ip, KEY_NOTE)
+    k = ops.term(self.attrs['kid'], 'int')
+    t = DER(k)
+    ip.ctx.assume(z3.And(z3.Length(t) == 91, KID_OF(t) == k))
+    ops.set_len(t, 91)
+    return Sym(t, 'bytes')
+
+
+@repo_function_model('crypto.EllipticCurvePublicKey.fromBytes')
+def _pub_frombytes(ip, der):
+    used(ip, KEY_NOTE)
+    if ops.pytype(der) != 'bytes':
+        ip.ctx.raise_exc('TypeError', 'fromBytes argument')
+    if ip.ctx.choose(2) == 1:
+        ip.ctx.raise_exc('ValueError', 'could not deserialize key data')
+    d = ops.term(der)
+    k = KID_OF(d)
+    ip.ctx.assume(DER(k) == d)
+    return mk_pub(ip, Sym(k, 'int'))
+
+
+@repo_function_model('crypto.EllipticCurvePrivateKey.sign')
+def _priv_sign(ip, self, data):
+    used(ip, KEY_NOTE)
+    k = ops.term(self.attrs['kid'], 'int')
+    d = ops.term(data)
+    nonce = ip.ctx.fresh('sig_nonce', IntSort)
+    s = SIG(k, d, nonce)
+    ip.ctx.assume(z3.And(SIGNED(k, d), SIG_OK(k, s, d), z3.Length(s) >= 8, z3.Length(s) <= 72))
+    ip.state.events.append(('sign', (self.attrs['kid'], data), {}))
+    return Sym(s, 'bytes')
+
+
+@repo_function_model('crypto.EllipticCurvePublicKey.verify')
+def _pub_verify(ip, self, signature, data):
+    used(ip, KEY_NOTE)
+    if ops.pytype(signature) != 'bytes' or ops.pytype(data) != 'bytes':
+        ip.ctx.raise_exc('TypeError', 'verify arguments')
+    k = ops.term(self.attrs['kid'], 'int')
+    ok = SIG_OK(k, ops.term(signature), ops.term(data))
+    if not ip.ctx.branch(ops.sbool(ok)):
+        ip.ctx.raise_exc('InvalidSignature', 'signature mismatch')
+    # ideal signature scheme: a verifying signature exists only for data signed under that key
+    ip.ctx.assume(SIGNED(k, ops.term(data)))
+    ip.state.events.append(('verified', (self.attrs['kid'], data), {}))
+    return None
+
+
+def _dh(a, b):
+    return z3.If(a <= b, DH(a, b), DH(b, a))
+
+
+@repo_function_model('crypto.ecdh_server')
+def _ecdh_server(ip, priv, pub):
+    used(ip, KEY_NOTE)
+    from .libspec import os_urandom
+    salt = os_urandom(ip, 16)
+    key = KDF(_dh(ops.term(priv.attrs['kid'], 'int'), ops.term(pub.attrs['kid'], 'int')), salt.t)
+    ip.ctx.assume(z3.Length(key) == 16)
+    ops.set_len(key, 16)
+    return (salt, Sym(key, 'bytes'))
+
+
+@repo_function_model('crypto.ecdh_client')
+def _ecdh_client(ip, priv, pub, salt):
+    used(ip, KEY_NOTE)
+    if ops.pytype(salt) != 'bytes':
+        ip.ctx.raise_exc('TypeError', 'salt must be bytes')
+    key = KDF(_dh(ops.term(priv.attrs['kid'], 'int'), ops.term(pub.attrs['kid'], 'int')), ops.term(salt))
+    ip.ctx.assume(z3.Length(key) == 16)
+    ops.set_len(key, 16)
+    return Sym(key, 'bytes')
